@@ -38,6 +38,9 @@ type Scenario struct {
 	Remotes  [][2]string // name, password
 	Replies  []Reply
 	Timeout  time.Duration // caller's context
+	// history
+	Warmup      string // "", "plain", "encrypted": a complete valid login on another connection first
+	ReuseConfig bool   // reuse the warm-up's LoginConfig object
 }
 
 // Result of a login attempt.
@@ -135,27 +138,25 @@ func packets(r Reply) [][]byte {
 	return pk
 }
 
-// Run executes the scenario in one controlled execution.
-func Run(sc Scenario) Result {
-	var res Result
-	vrt.ResetRand()
-	x := vrt.Run(vrt.Config{}, func() {
-		res = Result{}
-		conn, pipe, err := hx.NewConn(context.Background(), 100, 50)
-		if err != nil {
-			res.Failure = "NewConn: " + err.Error()
-			return
-		}
-		ch, err := conn.NewChannel()
-		if err != nil {
-			res.Failure = "NewChannel: " + err.Error()
-			return
-		}
+// one performs one login on a fresh connection inside the running execution.
+func one(sc Scenario, shared *tds.LoginConfig) (res Result, conf *tds.LoginConfig) {
+	conn, pipe, err := hx.NewConn(context.Background(), 100, 50)
+	if err != nil {
+		res.Failure = "NewConn: " + err.Error()
+		return
+	}
+	ch, err := conn.NewChannel()
+	if err != nil {
+		res.Failure = "NewChannel: " + err.Error()
+		return
+	}
+	conf = shared
+	if conf == nil {
 		info := &tds.Info{}
 		info.Host, info.Port = "srv", "5000"
 		info.Username, info.Password = sc.User, sc.Password
 		info.ClientHostname = sc.Host
-		conf, err := tds.NewLoginConfig(info)
+		conf, err = tds.NewLoginConfig(info)
 		if err != nil {
 			res.Failure = "NewLoginConfig: " + err.Error()
 			return
@@ -165,52 +166,89 @@ func Run(sc Scenario) Result {
 			conf.AppName = sc.App
 		}
 		conf.Hostname = sc.Host
-		if !sc.Encrypt {
-			conf.Encrypt = 0
-		}
 		for _, r := range sc.Remotes {
 			conf.RemoteServers = append(conf.RemoteServers, tds.LoginConfigRemoteServer{Name: r[0], Password: r[1]})
 		}
-		vrt.GoNamed("peer", func() {
-			for _, r := range sc.Replies {
-				for {
-					w := pipe.PeerRecv()
-					if w == nil {
-						return
-					}
-					if len(w) >= 2 && w[1]&hx.EOM != 0 {
-						break
-					}
+	}
+	if !sc.Encrypt {
+		conf.Encrypt = 0
+	} else {
+		conf.Encrypt = tds.TDS_MSG_SEC_ENCRYPT4
+	}
+	vrt.GoNamed("peer", func() {
+		for _, r := range sc.Replies {
+			for {
+				w := pipe.PeerRecv()
+				if w == nil {
+					return
 				}
-				if len(r.Pkgs) > 0 {
-					pipe.PeerSend(rx.OneChunk(packets(r))...)
+				if len(w) >= 2 && w[1]&hx.EOM != 0 {
+					break
 				}
 			}
-		})
-		to := sc.Timeout
-		if to == 0 {
-			to = 30 * time.Second
-		}
-		ctx, cancel := vrt.WithTimeout(context.Background(), to)
-		defer cancel()
-		err = ch.Login(ctx, conf)
-		res.Returned = true
-		res.Err = err
-		if err != nil {
-			res.ErrText = err.Error()
-		}
-		res.At = vrt.Now()
-		res.Writes = append([][]byte{}, pipe.Writes()...)
-		res.PacketSize = conn.PacketSize()
-		if conn.Caps != nil {
-			res.CapsDesc = rx.LibDesc(conn.Caps)
-		}
-		if err == nil {
-			vrt.Settle()
-			if p, e := ch.NextPackage(context.Background(), false); e == nil {
-				res.Leftover = rx.LibDesc(p)
+			if len(r.Pkgs) > 0 {
+				pipe.PeerSend(rx.OneChunk(packets(r))...)
 			}
 		}
+	})
+	to := sc.Timeout
+	if to == 0 {
+		to = 30 * time.Second
+	}
+	start := vrt.Now()
+	ctx, cancel := vrt.WithTimeout(context.Background(), to)
+	defer cancel()
+	err = ch.Login(ctx, conf)
+	res.Returned = true
+	res.Err = err
+	if err != nil {
+		res.ErrText = err.Error()
+	}
+	res.At = vrt.Now() - start
+	res.Writes = append([][]byte{}, pipe.Writes()...)
+	res.PacketSize = conn.PacketSize()
+	if conn.Caps != nil {
+		res.CapsDesc = rx.LibDesc(conn.Caps)
+	}
+	if err == nil {
+		vrt.Settle()
+		if p, e := ch.NextPackage(context.Background(), false); e == nil {
+			res.Leftover = rx.LibDesc(p)
+		}
+	}
+	return
+}
+
+// Run executes the scenario in one controlled execution. If sc.Warmup is
+// set, a complete valid login of the warm-up flow is performed first on
+// another connection of the same process (history); if sc.ReuseConfig is
+// set, the scenario's login reuses the warm-up's LoginConfig object.
+func Run(sc Scenario) Result {
+	var res Result
+	vrt.ResetRand()
+	x := vrt.Run(vrt.Config{}, func() {
+		res = Result{}
+		var shared *tds.LoginConfig
+		if sc.Warmup != "" {
+			w := sc
+			w.Encrypt = sc.Warmup == "encrypted"
+			w.Replies = ValidReplies(w.Encrypt, 1024, []byte("0123456789abcdef"))
+			wres, conf := one(w, nil)
+			if wres.Failure != "" || wres.Err != nil {
+				res.Failure = fmt.Sprintf("warm-up login failed: %v %s", wres.Err, wres.Failure)
+				return
+			}
+			if sc.ReuseConfig {
+				shared = conf
+				// Login prepends the account password to the remote servers of the config it is given
+				shared.RemoteServers = nil
+				for _, r := range sc.Remotes {
+					shared.RemoteServers = append(shared.RemoteServers, tds.LoginConfigRemoteServer{Name: r[0], Password: r[1]})
+				}
+			}
+			vrt.ResetRand()
+		}
+		res, _ = one(sc, shared)
 		vrt.Finish()
 	})
 	if x.Failure != nil {
